@@ -6,15 +6,15 @@ def _md(alg, unit, extra=None):
          "harness": "harness/digest_md.c", "defs": ["D_%s=1" % alg, "U_%s=1" % unit],
          "verif_src": ["models/strings.c"],
          "replace_calls": ["body:body_stub"],
-         "unwind": 66, "mem_gb": 4, "timeout": 600, "wip": True,
+         "unwind": 66, "mem_gb": 4, "timeout": 600, "tier": "thorough" if unit == "final" else "quick",
          "assumptions": ["A-det: the compression function is a function of (chaining value, block) - modelled by an uninterpreted function of the block index"],
-         "bound": "message length <= 100000 bytes (keeps size arithmetic away from 2^29; the length counter's carry into hi is covered for off < 2^29 only)"}
+         "bound": "message length <= 600 bytes (nine blocks: every buffer fill level and both padding layouts several times); the representation invariant does not mention absolute positions beyond the length counter, which is checked for off < 2^29"}
     if unit in ("update", "final"):
         j["cases"] = [("fill%d" % k, "(off & 63) == %d" % k) for k in range(64)]
         j["cases_quick"] = ["fill0", "fill1", "fill55", "fill56", "fill63"]
         j["cases_quick_note"] = ("quick tier: buffer fill levels 0, 1, 55, 56 (the padding boundary) and 63; "
                                  "thorough tier: all 64 fill levels (exhaustive)")
-        j["timeout"] = 300
+        j["timeout"] = 1200
     j.update(extra or {})
     return j
 
